@@ -435,17 +435,13 @@ def _aiger_t3(kind, make_parser, harnesses):
         "overlay_extra": _QUEUE["overlay_extra"],
         "inject": g["inject"] + _QUEUE["inject"] + [("flussab-aiger/src/lib.rs", r"\A", "#![cfg_attr(kani, feature(allocator_api))]\n"),
                                                    ("flussab-aiger/src/%s.rs" % kind, r"\n\s*let justice_property_count = self\.header\.justice_property_count;\n",
-                                                    "        #[cfg(kani)]\n        if crate::token::verif_stub::cut_after_prealloc() {\n            return Err(crate::token::verif_stub::any_err());\n        }\n"),
-                                                   ("flussab-aiger/src/%s.rs" % kind, r"\n\s*let mut justice_property = 0;\n",
-                                                    "        #[cfg(kani)]\n        if crate::token::verif_stub::cut_after_justice_sizes() {\n            return Err(crate::token::verif_stub::any_err());\n        }\n")],
+                                                    "        #[cfg(kani)]\n        if crate::token::verif_stub::cut_after_prealloc() {\n            return Err(crate::token::verif_stub::any_err());\n        }\n")],
         "append_text": g["append_text"] + [_SMALL_WRITER],
         "params": {"quick": {"N": 2, "QCAP": 28}, "thorough": {"N": 2, "QCAP": 28}},
         "flags": ["-Z", "stubbing", "--default-unwind", "12"],
         "harnesses": harnesses + [
             ("parse_prealloc_bound", {"props": ["C05"], "cost": 4, "solver_only": ["allocation bound"], "flags": ["--default-unwind", "2"],
                                       "what": "%s Parser::parse: every reserve/with_capacity is <= 2^16 elements for EVERY header (counts up to usize::MAX): declared counts cannot drive allocation" % kind}),
-            ("parse_prealloc_bound_justice", {"props": ["C05"], "cost": 6, "solver_only": ["allocation bound"], "flags": ["--default-unwind", "4"],
-                                              "what": "%s Parser::parse: neither the declared number of justice properties nor the justice sizes read from the body drive an allocation" % kind}),
         ],
     })
     return g
